@@ -184,4 +184,101 @@ def k1(ctx, kr):
     kr.assumptions = ['operands are identifiers (LateBound variables); literal operands and function calls are outside this kernel']
     kr.outside = ['expressions with more operators than the bound; the representative-per-level restriction at k>=3 is a stated bound, not a symmetry argument']
 
-KERNELS = [k1]
+
+# ---------------------------------------------------------------------------------------------- K4 variable-block class x qualifier through the real rules
+BLOCK_CLASS = {'Var': 'Var', 'VarInput': 'Input', 'VarOutput': 'Output', 'VarInOut': 'InOut', 'VarExternal': 'External', 'VarTemp': 'VarTemp', 'VarGlobal': 'Global', 'VarAccess': 'Access'}
+QUAL = {'Constant': 'Constant', 'Retain': 'Retain', 'NonRetain': 'NonRetain', 'Whitespace': 'Unspecified'}
+QLEX = {'Constant': 'CONSTANT', 'Retain': 'RETAIN', 'NonRetain': 'NON_RETAIN', 'Whitespace': ''}
+BLEX = {'Var': 'VAR', 'VarInput': 'VAR_INPUT', 'VarOutput': 'VAR_OUTPUT', 'VarInOut': 'VAR_IN_OUT', 'VarExternal': 'VAR_EXTERNAL', 'VarTemp': 'VAR_TEMP', 'VarGlobal': 'VAR_GLOBAL', 'VarAccess': 'VAR_ACCESS'}
+# combinations IEC 61131-3 (tables 16/33) allows inside a function block and the grammar implements: these must parse
+MUST_PARSE = {('Var', 'Whitespace'), ('Var', 'Constant'), ('Var', 'Retain'), ('Var', 'NonRetain'), ('VarInput', 'Whitespace'), ('VarInput', 'Retain'), ('VarInput', 'NonRetain'),
+              ('VarOutput', 'Whitespace'), ('VarOutput', 'Retain'), ('VarOutput', 'NonRetain'), ('VarInOut', 'Whitespace'), ('VarExternal', 'Whitespace'), ('VarExternal', 'Constant')}
+
+def _k4_source(block, qual, edge):
+    return 'FUNCTION_BLOCK fb\n%s %s\n  a : INT;\n%sEND_VAR\nEND_FUNCTION_BLOCK\n' % (BLEX[block], QLEX[qual], '  b : BOOL R_EDGE;\n' if edge else '')
+
+def _k4_job(job):
+    edge, = job
+    from . import lexcommon as LC
+    ctx = _CTX; part = Part()
+    P = ctx.program()
+    TT = P.enums['TokenType']
+    text = _k4_source('VarInput', 'Retain', edge)
+    data = text.encode()
+    M0, entry0, b, L, toks, LM = LC.tokenize_machine(ctx, len(data), bytes_=list(data))
+    k_tok = P.find_fn('ironplc-parser', 'lexer::tokenize'); k_p = P.find_fn('ironplc-parser', 'parser::parse_library')
+    res0 = M0.explore(lambda M: M.call_fn(k_tok, [Ref(Cell(Str(list(data)))), Ref(Cell(Agg('FileId', [Str('f.st')])))]))
+    if len(res0) != 1 or res0[0].inconclusive or res0[0].panic: part.inconc('tokenizing the template failed: %s' % (res0[0].inconclusive if res0 else '')); return part
+    tokens0 = res0[0].result.f[0]
+    ib = [i for i, t in enumerate(tokens0.items) if TT[t.f[0].disc] == 'VarInput'][0]
+    iq = [i for i, t in enumerate(tokens0.items) if TT[t.f[0].disc] == 'Retain'][0]
+    blocks = list(BLOCK_CLASS) if not edge else ['VarInput']
+    sym = {}
+    M = Machine(P, max_steps=100_000_000)
+    def entry(M):
+        tokens = deep_clone(tokens0)
+        tb = M.fresh_bv('block', 64); M.assume(z3.Or([tb == TT.index(x) for x in blocks]))
+        tq = M.fresh_bv('qual', 64); M.assume(z3.Or([tq == TT.index(x) for x in QUAL]))
+        tokens.items[ib].f[0] = EnumV('TokenType', tb, []); tokens.items[iq].f[0] = EnumV('TokenType', tq, [])
+        sym['b'] = tb; sym['q'] = tq
+        return M.call_fn(k_p, [tokens])
+    def on_path(M, pr):
+        part.paths += 1
+        if pr.inconclusive: part.inconc(pr.inconclusive); return
+        s = z3.Solver(); s.add(*pr.pc)
+        t0 = time.time(); r = s.check(); part.solver_s += time.time() - t0; part.queries += 1
+        if r != z3.sat: return
+        m = s.model(); part.nontrivial += 1
+        block = TT[m.eval(sym['b'], True).as_long()]; qual = TT[m.eval(sym['q'], True).as_long()]
+        src = _k4_source(block, qual, edge)
+        role = 'C01/K4/%s/%s%s' % (block, qual if qual != 'Whitespace' else 'none', '/edge' if edge else '')
+        want = {'class': BLOCK_CLASS[block], 'qualifier': QUAL[qual]}
+        rep = ('varblock', (src, json.dumps(want), edge))
+        if pr.panic: part.add(role + '/panic', 'parser panics on `%s %s`: %s' % (BLEX[block], QLEX[qual], pr.panic.msg[:60]), {'source': src}, rep); return
+        res = pr.result
+        if res.disc != 0:
+            if (block, qual) in MUST_PARSE and (not edge or block == 'VarInput'):
+                part.add(role, 'the well-formed block `%s %s ... END_VAR` is rejected' % (BLEX[block], QLEX[qual]), {'source': src}, rep)
+            return
+        fbs = [e for e in res.f[0].items]
+        fb = fbs[0].f[0]
+        VT = P.enums['VariableType']; DQ = P.enums['DeclarationQualifier']
+        got = [(M.deref(v.f[0].f[0].f[0]).conc(), VT[v.f[1].disc], DQ[v.f[2].disc]) for v in fb.f[1].items]
+        got_edge = [(M.deref(v.f[0].f[0]).conc(), DQ[v.f[2].disc]) for v in fb.f[2].items]
+        exp = [('a', want['class'], want['qualifier'])]; exp_edge = [('b', want['qualifier'])] if edge else []
+        if got != exp or got_edge != exp_edge:
+            part.add(role, '`%s %s a : INT;%s END_VAR` parses to variables %s edge variables %s; written: class %s, qualifier %s' % (BLEX[block], QLEX[qual], ' b : BOOL R_EDGE;' if edge else '', got, got_edge, want['class'], want['qualifier']),
+                     {'source': src, 'got': got, 'got_edge': got_edge, 'expected': want}, rep)
+        elif len(part.validate) < 2: part.validate.append(rep)
+        if len(part.samples) < 2: part.samples.append({'block': block, 'qualifier': qual, 'variables': got, 'edge_variables': got_edge})
+    M.explore(entry, on_path)
+    part.queries += M.stats['smt']; part.encoded = set(M.encoded); part.models = set(M.models_used)
+    return part
+
+@replay_factory('varblock')
+def _replay_varblock(src, want_json, edge):
+    def rp(ctx):
+        want = json.loads(want_json)
+        r = ctx.replay({'cmd': 'parse', 'source': src})
+        if 'panic' in r: return True, r
+        if not r.get('ok'): return True, {'source': src, 'rejected': r.get('diag')}
+        d = rustdebug.parse(r['debug'])
+        vds = rustdebug.find_all(d, 'VarDecl'); eds = rustdebug.find_all(d, 'EdgeVarDecl')
+        got = [(v['var_type']['_'], v['qualifier']['_']) for v in vds]; gote = [e['qualifier']['_'] for e in eds]
+        bad = got != [(want['class'], want['qualifier'])] or gote != ([want['qualifier']] if edge else [])
+        return bad, {'source': src, 'var_decls': got, 'edge_qualifiers': gote, 'written': want}
+    return rp
+
+@kernel('K4 parser.var_block_class_and_qualifier')
+def k4(ctx, kr):
+    global _CTX
+    _CTX = ctx
+    kr.bounds = 'FUNCTION_BLOCK with one VAR block whose block keyword (8 VAR* token types) and qualifier token (CONSTANT / RETAIN / NON_RETAIN / absent) are symbolic token types; one ordinary variable, and (second family) an additional edge-triggered input'
+    for part in par_map(_k4_job, [(False,), (True,)]): merge_part(kr, part)
+    P = ctx.program()
+    kr.functions = fn_paths(P, getattr(kr, '_enc', set()))[:80]
+    kr.exhaustive = True
+    kr.assumptions = ['oracle: IEC 61131-3 tables 16/33 — the declared variable carries the class of its block and the qualifier written; combinations outside the grammar may be rejected']
+    kr.outside = ['PROGRAM / FUNCTION / CONFIGURATION blocks; initialiser kinds; several blocks per POU']
+
+KERNELS = [k1, k4]
